@@ -48,6 +48,17 @@ def plan(tier, seed):
     return cases
 
 
+def _max_l(reaction, name) -> int:
+    out = 0
+    for t in reaction.transitions:
+        for node in t.topology.nodes:
+            pin = next(iter(t.topology.get_edge_ids_ingoing_to_node(node)))
+            if t.states[pin].particle.name == name:
+                L = t.interactions[node].l_magnitude
+                out = max(out, int(L) if L is not None else int(float(t.states[pin].particle.spin)))
+    return out
+
+
 def mode_config(mode, reaction, rng):
     from vmon.workloads import configs as C
     cfg = C.default_config()
@@ -55,7 +66,9 @@ def mode_config(mode, reaction, rng):
         cfg["couplings"] = True
     if mode >= 2:
         cfg["naming"] = {"parent": bool(rng.uniform() < 0.5), "child": bool(rng.uniform() < 0.6), "ls": bool(rng.uniform() < 0.6)}
-        cfg["dynamics"] = [{"select": "name", "target": n, "builder": "bw"} for n in C.resonances(reaction) if rng.uniform() < 0.7]
+        # Breit-Wigner, or (where the node's L is known and <= 4) Breit-Wigner with form factor and energy-dependent width
+        cfg["dynamics"] = [{"select": "name", "target": n, "builder": "bw_ff" if (mode == 3 and C.l_available(reaction, n) and _max_l(reaction, n) <= 4) else "bw"}
+                           for n in C.resonances(reaction) if rng.uniform() < 0.7]
     return cfg
 
 
@@ -134,6 +147,20 @@ def judge_model(rec, ctx, model, records, couplings):
             pv[s] = float(rng.uniform(0.05, 0.4))
         else:
             pv[s] = float(v) if not s.name.startswith("m_{") else float(rng.uniform(0.8, 2.2))
+    if any(s.name.startswith("d_{") for s in pv):
+        # lineshapes with phase-space factors: physical masses (every parent above the sum of its daughters, every pole above
+        # threshold) - m = 0.2 k^2 + noise for a sub-system of k final-state particles is super-additive
+        import re
+        for nm in list(point):
+            mm = re.fullmatch(r"m_\{?(\d+)\}?", nm)
+            if mm:
+                k_ = len(mm.group(1))
+                point[nm] = 0.2 * k_ ** 2 + rng.uniform(0, 0.1, n)
+        for s in pv:
+            if s.name.startswith("m_{"):
+                pv[s] = float(rng.uniform(3.5, 5.5))
+            elif s.name.startswith("d_{"):
+                pv[s] = float(rng.uniform(0.5, 2.0))
     values = {**{s: point[s.name] for s in expr_full.free_symbols if isinstance(s, sp.Symbol) and s.name in point}, **pv}
     lineshape = RH.bw_lineshape({s.name: v for s, v in pv.items()})
 
